@@ -245,7 +245,7 @@ def run(ctx):
     C01.check_cases(ctx, "c02_struct", cases)
     # ---- (ii) byte-level fuzz on the implementation --------------------------------------------------
     install_caps()
-    n_fuzz = ctx.pick(7000, 80000)
+    n_fuzz = ctx.pick(10000, 120000)
     hist = {}
     classes = {}
     for n in range(n_fuzz):
